@@ -96,7 +96,7 @@ SHIPPED_SCORERS = {
                                       "damping": [5.0, {"user": 1.0, "item": 2.0}], "range": [None, [1, 5], [0.5, 5.0]]},
     "lenskit.implicit:ALS": {"weight": [40.0, 5.5], "factors": [10, 16], "iterations": [3]},
     "lenskit.implicit:BPR": {"factors": [8], "iterations": [2]},
-    "lenskit.knn.item:ItemKNNScorer": {"k": [5, 20], "max_nbrs": [7], "min_nbrs": [1, 2], "min_sim": [1e-6, 0.0, 0.05], "save_nbrs": [None, 50],
+    "lenskit.knn.item:ItemKNNScorer": {"k": [5, 20], "max_nbrs": [7], "min_nbrs": [1, 2], "min_sim": [1e-6, 0.05], "save_nbrs": [None, 50],
                                        "feedback": ["explicit", "implicit"], "block_size": [250, 100]},
     "lenskit.knn.user:UserKNNScorer": {"k": [5], "max_nbrs": [10, 30], "min_nbrs": [1, 3], "min_sim": [1e-6, 0.1], "feedback": ["explicit", "implicit"]},
     "lenskit.sklearn.svd:BiasedSVDScorer": {"features": [6], "embedding_size": [12], "damping": [5, 2.5], "algorithm": ["randomized", "arpack"], "n_iter": [5, 3]},
@@ -375,7 +375,7 @@ _CACHE: dict = {}
 
 
 def gen_cases(rng, tier):
-    n = 320 if tier == "quick" else 2400
+    n = 320 if tier == "quick" else 1600
     out = []
     for k in range(n):
         r = rng.fork(k)
